@@ -32,7 +32,8 @@ CLAIMED["C01"] = dict(
           "separator/segment token sequence (PathToks) for every input string; variable.index implements, per pattern token, exactly the google.api.http "
           "semantics ('/' one slash, LITERAL one equal segment, '*' exactly one segment, '**' everything up to the verb or the end) for every pattern and "
           "token sequence (loop step clauses); path.search slices and indexes safely, takes a variable edge only after a slash token, binds the k-th capture "
-          "to the k-th template variable (depth ghost) and terminates; path.match composes them."),
+          "to the k-th template variable (depth ghost) and terminates; path.match composes them. The well-formedness of variable patterns that the matcher relies on is established by construction: "
+          "addRule passes only patterns of the shape segment ('/' segment)* to addVariable (from the template automaton) and a new variable node is created with that pattern and a non-nil subtree."),
     note=TRUST + "Assumed, not proved: the trie invariant TrieWf (what addRule builds: well-formed variable patterns, non-nil children, depth bookkeeping), map contents at lookups (assume-at clauses listed in the evidence), parseParam/tokens.String as trusted pure functions, the read-only region of variable pattern arrays, the typed conversions in encoding/json, protojson, base64.",
     ref="DESIGN.md section 5 C01")
 CLAIMED["C02"] = dict(
@@ -55,7 +56,8 @@ CLAIMED["C08"] = dict(
 CLAIMED["C09"] = dict(
     text=("No-panic and termination obligations (index/slice bounds, nil dereference, failed type assertion, explicit panic, negative make, callee preconditions, loop and recursion variants) "
           "discharged for every function under contract on the request paths: status tables, grpc-message encoding, timeout decoding, stream codecs, readAll/writeAll, "
-          "lexers, token search, variable.index, path.search/match."),
+          "lexers, token search, variable.index, path.search/match, fieldPath, params.set, addRule's token walk, the selector walks of decodeRequestArgs / SendMsg / WebSocket Recv/Send / AsHTTPBodyReader/Writer "
+          "(a registered method's body and response_body selectors contain only singular message fields, so Mutable(fd).Message() cannot panic), clone, newPath, alive."),
     note=TRUST + "Covers only the functions listed in the evidence (functions_under_contract); panics inside dependencies, goroutine bodies and resource exhaustion are not decided. Reader-loop termination assumes ReaderProgress.",
     ref="DESIGN.md section 5 C09")
 CLAIMED["C17"] = dict(
@@ -66,41 +68,59 @@ CLAIMED["C17"] = dict(
     ref="DESIGN.md section 5 C17")
 
 CLAIMED["C04"] = dict(
-    text=("Partial proof: Accept / Accept-Encoding parsing is memory-safe and terminates for every header value; the negotiated content type (encoding) is always one of the offers "
-          "or the default ('identity' / none); NewMux offers only keys of the codec resp. compressor registry (so a negotiated encoding names a registered compressor); "
-          "writeAll refuses a unary reply iff it exceeds the send limit and otherwise writes it whole."),
-    note=TRUST + "Floats are reals. Not decided: that the body decodes to the reply (codec round trip inside protobuf-go), HttpBody passthrough bytes, gzip bytes, the RFC 7231 preference order among admissible offers, response_body resolution in addRule.",
-    ref="DESIGN.md section 5 C04")
+    text=("Partial proof. Negotiation, for every Accept header and offer list: the negotiated content type is the untouched default or is admitted (exact, type/*, */*) by a range of the parsed "
+          "Accept header with positive weight, and whenever some offer is admitted by such a range the default is not returned (both directions, loop invariants over all offer/range pairs); "
+          "parsed weights are never negative; a header element list is abandoned only at its end or at a non-space character (optional white space around ',' hides nothing); "
+          "the result is always one of the offers or the default; NewMux offers only registry keys. streamHTTP.writeMsg sets Content-Type before the first message whether or not headers were already sent. "
+          "A response_body selector is resolved in the reply message type from rule.ResponseBody and every element is a singular message field (so applying it to a reply cannot panic); "
+          "writeAll refuses a unary reply iff it exceeds the send limit."),
+    note=TRUST + "Floats are reals. Not decided: that the body decodes to the reply (codec round trip inside protobuf-go), HttpBody passthrough bytes, gzip bytes and pooled gzip writers, the RFC 7231 preference order among admissible offers, that parseAccept's ranges are the header's ranges (only the list-continuation fact is proved).",
+    ref="DESIGN.md sections 5 C04 and 10.3")
 CLAIMED["C07"] = dict(
     text=("Proof of the ordering facts that make path-bound fields authoritative: in serveHTTP the parameter list handed to the stream is queryParams ++ pathParams "
-          "(every path capture after every query parameter, element-wise; append modelled exactly), so with params.set's last-wins order no query parameter can replace a path capture."),
-    note=TRUST + "Assumed: protoreflect Set semantics (last write wins per field) and parseQueryParams returning a fresh slice; the body is decoded before params are applied (program order in RecvMsg, not a separate obligation).",
-    ref="DESIGN.md section 5 C07")
+          "(every path capture after every query parameter, element-wise; append modelled exactly; a cover clause shows the case with several parameters on both sides is reachable); "
+          "params.set applies the list in slice order and walks only singular message fields (no panic) for well-formed field paths, which fieldPath guarantees for every key it resolves."),
+    note=TRUST + "Assumed: protoreflect Set semantics (last write wins per field), parseQueryParams returning a fresh slice of well-formed params (trusted contract); the body is decoded before params are applied (program order in RecvMsg).",
+    ref="DESIGN.md sections 5 C07 and 10.3")
 CLAIMED["C11"] = dict(
-    text=("Partial proof (publication): DropConn stores the state without the connection exactly when the connection was known, and stores nothing otherwise; RegisterConn stores at most once and not at all when adding the connection fails."),
-    note=TRUST + "removeHandler/addConnHandler/pickMethodHandler bodies are abstracted (Go maps); reflection fetch, descriptor hashing and delivery to a backend are not decided.",
-    ref="DESIGN.md section 5 C11")
+    text=("Partial proof. Publication: DropConn stores the state without the connection exactly when it was known and nothing otherwise; RegisterConn stores at most once and never on failure. "
+          "Removal: removeHandler forgets the connection (map model) and unregisters a method whose last handler goes away before its rule is deleted; delRule prunes a trie node only when alive() is false and alive() is true for any node with methods, variables or child segments "
+          "(dropping one connection cannot remove another service's routes); re-registering a connection with unchanged descriptors removes nothing; addRule on a binding that is already occupied "
+          "(second backend, re-registration, implicit /Service/Method path) compares with the occupying method and never dereferences nil; pickMethodHandler returns no handler together with an error."),
+    note=TRUST + "Go maps with string, integer and pointer keys are modelled (has / value / length per map); reflection fetch, descriptor hashing, the random choice among live backends and delivery to a backend are not decided; delRule not removing '*' bindings or additional bindings is outside the property as stated (stale routes answer Unimplemented).",
+    ref="DESIGN.md sections 5 C11 and 10.3")
 CLAIMED["C12"] = dict(
-    text=("Proof of the sequential publication discipline only: registerService / RegisterConn / DropConn replace the routing state by exactly one store on the success path and none on any error path; "
-          "serveHTTP and serveGRPC load the state at most once per request; Mux.opts is never written after NewMux (scan of every store in the package)."),
-    note=TRUST + "Interleavings, the race detector's happens-before and the copy-on-write frame discipline of clone() are NOT decided (the generator drops goroutines and has no ownership logic); the argument that this discipline implies atomicity is on paper (DESIGN 5 C12).",
-    ref="DESIGN.md section 5 C12")
+    text=("Proof of the sequential copy-on-write discipline: state.clone and path.clone return only freshly allocated state / trie / variable nodes and maps and write nothing that existed before the call "
+          "('modifies fresh' frames: every store and map update targets an object allocated by the call; recursion gives every level); the three writers take the lock before loading the snapshot, clone it, "
+          "call their mutating helpers on the fresh clone only, and publish with exactly one store on success and none on any error path while holding the lock; serveHTTP / serveGRPC load the state once per request; "
+          "Mux.opts is never written after NewMux and method values never after addRule (scans of every store in the package)."),
+    note=TRUST + "Interleavings, the race detector's happens-before and sync.Pool hand-offs are NOT decided (the generator drops goroutines); that this discipline implies atomicity for concurrent readers is an argument on paper (DESIGN 5 C12). Handler slices and method values are shared between snapshots by design (never written in place).",
+    ref="DESIGN.md sections 5 C12 and 10.3")
+CLAIMED["C14"] = dict(
+    text=("Partial proof of the per-function facts: isReservedHeader reserves every protocol-owned key (content-type, grpc-status, grpc-message, grpc-encoding, grpc-status-details-bin, grpc-timeout, te) for all strings; "
+          "setOutgoingHeader never writes such a key from handler header/trailer metadata into the response and newIncomingContext never injects one into incoming metadata; "
+          "decodeBinHeader accepts exactly the texts that are valid padded or unpadded base64."),
+    note=TRUST + "Assumed: base64 DecodeString succeeds exactly on valid text of its encoding (uninterpreted validity predicates with two axioms, listed). Not decided: lower-casing and value order (strings.ToLower, map iteration), byte-exactness of decoded values, trailer announcement and the gRPC-web trailer frame, net/http header canonicalisation.",
+    ref="DESIGN.md sections 5 C14 and 10.3")
 CLAIMED["C16"] = dict(
-    text=("Partial proof: the template lexer is memory-safe and terminates on every string (mutual recursion measure), accepts every LITERAL segment including one-letter ones, "
-          "keeps at most 64 tokens; registerService stores the new routing state only on success, so a rejected registration leaves the published routes intact."),
-    note=TRUST + "Not decided: full grammar conformance of the emitted token sequence, addRule's token walk / field resolution / duplicate detection (its body is not under contract: nested variables and scalar body selectors are out of reach), body and response_body resolution.",
-    ref="DESIGN.md section 5 C16")
+    text=("Proof that registration never panics on any template and resolves selectors in the right message: the template lexer's emitted tokens are, for every input string, an accepting run of the template grammar's token automaton "
+          "(ghost run maintained by emit; nested variables rejected), it is memory-safe, terminates and accepts every LITERAL segment; addRule's token walk stays inside that run for every accepted template "
+          "(no index out of range, its three invalid(...) panics unreachable), hands only well-formed variable patterns to addVariable, never dereferences a nil method at an occupied binding, accepts a duplicate silently only for the same method (full name), "
+          "resolves path variables and body in the request type and response_body in the reply type, and stores only selectors whose every element is a singular message field; fieldPath rejects paths through repeated/map fields; "
+          "registerService publishes only on success."),
+    note=TRUST + "addRule is under a partial contract (claimed: ghost assertions, index, slice, loop invariants, preconditions of its closures and of addVariable's pattern clause); its nil obligations for map contents and the recursion for additional bindings are not claimed (frame assumed). Not decided: that every grammar-conforming template is accepted (only LITERAL acceptance), that an instantiated path routes back to the method (C01/C02 assume the trie invariant), failure atomicity inside one registration beyond publish-on-success.",
+    ref="DESIGN.md sections 5 C16 and 10.3")
 CLAIMED["C18"] = dict(
-    text=("Partial proof (call counts and constructors): muxOptions.unary / stream invoke exactly one of interceptor and handler, once, on every path; inPayload / outPayload events carry the client flag, "
-          "payload length and wire length of their arguments; on every path of serveHTTP / serveGRPC the number of stats.Begin events equals the number of stats.End events (7 return sites violate this today: known findings)."),
-    note=TRUST + "Not decided: the generated gRPC glue invoking the interceptor, event ordering across handler-driven stream calls, that installing options never changes the outcome (a two-run equivalence).",
-    ref="DESIGN.md section 5 C18")
+    text=("Partial proof (call counts, constructors, stream info): muxOptions.unary / stream invoke exactly one of interceptor and handler, once, on every path; the StreamServerInfo built for local and for proxied streaming methods carries the method's own name and "
+          "its client/server streaming flags, the UnaryServerInfo the method name; gRPC RecvMsg/SendMsg and HTTP decodeRequestArgs/SendMsg emit exactly one payload event per message when a stats handler is installed and none when the call fails; "
+          "streamGRPC.SendHeader's stats block cannot dereference a nil compressor; inPayload / outPayload carry the client flag and lengths of their arguments; on every path of serveHTTP / serveGRPC the number of stats.Begin events equals the number of stats.End events (7 return sites violate this today: known findings)."),
+    note=TRUST + "Not decided: the generated gRPC glue invoking the interceptor, event ordering across handler-driven stream calls, that installing options never changes the outcome as a two-run equivalence (only the nil-dereference instance in SendHeader).",
+    ref="DESIGN.md sections 5 C18 and 10.3")
 
 NA = {
     "C03": "round trip through encoding/json, protojson, base64, gzip and protobuf reflection: larking's share is a kind-dispatch table whose every arm delegates to a dependency; a contract would axiomatise the libraries, not decide the code (DESIGN 5 C03)",
     "C10": "observational equivalence of two systems over whole call histories, decided by grpc-go streams and two pump goroutines; the VC generator drops goroutines and no per-function contract expresses it (DESIGN 5 C10)",
     "C13": "pool reuse, goroutine lifetimes and data races are statements over schedules; no permission/ownership logic for sync.Pool hand-offs, go/sync are dropped by the generator (DESIGN 5 C13)",
-    "C14": "per-key facts are decided by dependencies (base64 variants, textproto canonicalisation, net/http trailer rules, grpc metadata); contracts would be discharged by axioms about those libraries (DESIGN 5 C14)",
     "C19": "selector semantics is an algebra of dotted strings inside a self-recursive closure over a map-of-pointers trie; needs string/sequence theories the installed solvers handle poorly, second half is end-to-end over grpc's health server (DESIGN 5 C19)",
     "C20": "behaviour of net/http.ServeMux longest-pattern matching, http.StripPrefix and h2c; larking contributes a six-line loop without arithmetic (DESIGN 5 C20)",
 }
